@@ -680,6 +680,17 @@ def gcimpl_extras(work, prop, tier, seed):
     if "Invariant Listed is violated" not in res["out"]:
         raise Inconclusive("GCImpl without the second scan of the responses is no longer rejected: the model lost its teeth\n" + res["out"][-1500:])
     notes.append("GCImpl with Rescan <- FALSE: TLC reports a referrer that stays but is no longer listed (sanity of Listed)")
+    # the walk as the code runs it (work list, entries popped in ANY order, walked map, scan of the responses when the list runs
+    # empty) ends with exactly the fixed point of GCImpl
+    wcfg = "SPECIFICATION MCWalkSpec\nINVARIANT WalkAgrees\nCHECK_DEADLOCK FALSE\n"
+    wc = vlib.catalogue(work, vh, "gcwalk", ["m1", "m2", "x1", "a1", "a4", "a12"] if tier != "quick" else ["m1", "x1", "a1", "a4", "a12"], ["sha256"], 1, cfg=sc_cfg({}), ntags=1, nrepos=1)
+    res = vlib.tlc(work, "gcwalk", "MCGCImpl", wcfg, files={wc: "cat.json"}, workers=vlib.WORKERS, timeout=3000, java_opts="-Xss64m")
+    vlib.tlc_ok(res, "MCGCImpl walk")
+    notes.append("the stepwise walk (work list popped in any order) agrees with GCImpl's fixed point on every shape of the policy untagged + dangling, no grace period: %d states, %.0fs" % (res["distinct"], res["wall"]))
+    res = vlib.tlc(work, "gcwalkS", "MCGCImpl", wcfg + "CONSTANT WalkRescans <- NoRescan\n", files={cat: "cat.json"}, workers=4, timeout=1500, java_opts="-Xss64m")
+    if "Invariant WalkAgrees is violated" not in res["out"]:
+        raise Inconclusive("a stepwise walk that never scans the responses again still agrees with GCImpl: the model lost its teeth\n" + res["out"][-1500:])
+    notes.append("stepwise walk without the scan of the responses: TLC reports the disagreement (sanity of WalkAgrees)")
     return {"violations": [], "events": 0, "traces": 0, "note": "; ".join(notes) + "; the collections of the directory store in the histories above are compared with GCImpl (clause gc.impl, reported as DRIFT)"}
 
 
@@ -703,7 +714,7 @@ def c06(prop, tier, seed, work):
                         # (the directory store itself runs with a policy under which the collection of its Close removes nothing)
                         cfg={"untagged": False, "dangling": False, "withSubj": False, "grace": True, "emptyRepo": False}))
     return histories(prop, tier, seed, work, scs, "", "a history is non-trivial if it runs at least one collection after at least one manifest push; distinct = distinct operation sequences",
-                     {"GC", "GCPass"}, extras=[c06_convert, gcimpl_extras])
+                     {"GC", "GCPass"}, extras=[c06_convert])      # (GCImpl / MCGCImpl run with ./check C05; the drift clause gc.impl binds here)
 
 
 def c06_convert(work, prop, tier, seed):
